@@ -28,8 +28,11 @@ INSTANCES = {
     "aufs":  ["cache_dir aufs {W}/aufs 64 4 8"],
     "diskd": ["cache_dir diskd {W}/diskd 64 4 8"],
     "rock":  ["cache_dir rock {W}/rock 64 slot-size=%(slot)d"],
+    # two cache_dirs holding different numbers of entries (the second one only takes small objects): the clean-log
+    # writer walks all cache_dirs round-robin at shutdown
+    "ufs-two-dirs": ["cache_dir ufs {W}/ufsA 64 4 8", "cache_dir ufs {W}/ufsB 64 4 8 max-size=16384"],
 }
-ORDER = ["ufs", "aufs", "diskd", "rock"]
+ORDER = ["ufs", "aufs", "diskd", "rock", "ufs-two-dirs"]
 STATUSES = [200, 200, 200, 200, 200, 203, 410, 301]      # 404 is only negatively cached (never swapped out)
 ROUNDS = {"quick": 2, "thorough": 3}
 
